@@ -312,6 +312,14 @@ func c06Run(w *vfWorld, f *vfFakes, shapes map[string]vfCredShape, p c06Point) (
 		}
 		return true, fmt.Sprintf("C06|cross-site-state-change|%s|%s", rt, verb), desc, "", dirty
 	}
+	// (5) a session token handed out names the identity the request was admitted with
+	if admitted != "" {
+		for _, sg := range signed {
+			if strings.HasPrefix(sg, "jws:keymaster_auth") && !strings.HasSuffix(sg, ":sub="+admitted) {
+				return true, fmt.Sprintf("C06|session-token-for-other-identity|%s", rt), desc, "", dirty
+			}
+		}
+	}
 	if !known {
 		return false, "", "", fmt.Sprintf("unclassified-route|effect=%v", effect), dirty
 	}
